@@ -326,6 +326,10 @@ def build_ops(fam, mpc, m):
     add('inverse:c', 1, lambda a: s(a).inverse(), lambda a: admissible1(a, G.inversion(a)), site='inv')
     if not fam.cl:
         add('chain:c', 2, lambda a, b: (s(a) @ s(b)) @ ~s(a), lambda a, b: G.operation(G.operation(a, b), G.inversion(a)))
+        # an identity that was COMPUTED (a @ ~a: whatever representation the formulas leave) equals the identity
+        add('eq_idc:c', 1, lambda a: (s(a) @ ~s(a)) == S(G.identity), lambda a: 1, res='bit', site='eq(computed identity)')
+        add('eq_idc_pub:c', 1, lambda a: (s(a) @ ~s(a)) == G.identity, lambda a: 1, res='bit', site='eq(computed identity)')
+        add('eq_idc2:c', 2, lambda a, b: (s(a) @ ~s(a)) == (s(b) @ ~s(b)), lambda a, b: 1, res='bit', site='eq(computed identity)')
     if additive:
         add('add:c', 2, lambda a, b: s(a) + s(b), lambda a, b: admissible2(a, b, G.operation(a, b)), site='+')
         add('neg:c', 1, lambda a: -s(a), lambda a: admissible1(a, G.inversion(a)), site='neg')
